@@ -66,6 +66,14 @@ func init() {
 		siblings.Reverse(p, r)
 		tables.Alphabet(p, r)
 	})
+	register("C10", true, func(p *core.Prog, r *core.Report, tier string) {
+		effects.PureOps(12, "Insert", "Embed", "Delete", "Slice", "Concat", "(FeatureSlice).Insert", "*.Shift", "*.Expand")(p, r)
+		conserve.C10(p, r)
+		siblings.Shift(p, r)
+		siblings.Expand(p, r)
+	})
+	register("C08", false, func(p *core.Prog, r *core.Report, tier string) { conserve.C08(p, r) })
+	register("C17", false, func(p *core.Prog, r *core.Report, tier string) { tables.C17(p, r) })
 	register("C06", false, func(p *core.Prog, r *core.Report, tier string) {
 		conserve.PushRules(p, r)
 		conserve.PrintParse(p, r)
